@@ -325,6 +325,15 @@ impl<'r> JEmitter<'r> {
                     m.push((c.clone(), v));
                 }
             }
+            // a row may carry a tag that no column declares (the decoder keeps it)
+            if self.cfg.exotic && self.rng.chance(1, 6) {
+                let mut k = self.id();
+                while cols.contains(&k) {
+                    k.push('z');
+                }
+                let v = self.sub(|e| e.value(depth));
+                m.push((k, v));
+            }
             rows.push(self.sub(|e| e.object(m)));
         }
         let mut m = vec![("_kind".to_string(), "\"grid\"".to_string())];
